@@ -26,6 +26,49 @@ def tl_calls(body, *methods):
     return [c for c in body.calls() if c.callee.get("trait") == K.TERMLIKE and K.meth(c.generic) in methods]
 
 
+def effect_summary(crate, name, seen=None):
+    """TermLike effect methods a crate function performs, directly or through crate helpers."""
+    seen = seen or set()
+    if name in seen or name not in crate.bodies:
+        return set()
+    seen.add(name)
+    b = crate.bodies[name]
+    out = {K.meth(c.generic) for c in b.calls() if K.is_termlike_effect(c)}
+    for c in b.calls():
+        if c.callee.get("local") and not c.callee.get("trait"):
+            out |= effect_summary(crate, c.path, seen)
+    return out
+
+
+def helper_calls(crate, b, *methods):
+    """Calls from b to crate helper functions that perform one of the TermLike methods."""
+    out = []
+    for c in b.calls():
+        if c.callee.get("local") and not c.callee.get("trait") and c.path in crate.bodies and c.path != b.name:
+            if effect_summary(crate, c.path) & set(methods):
+                out.append(c)
+    return out
+
+
+def helper_clear_ok(crate, b, c, p):
+    """Helper H called at c clears rows in a loop bounded by one of its parameters, and the matching argument at the
+    call site derives from the previous row count p."""
+    h = crate.bodies[c.path]
+    for cl in tl_calls(h, "clear_line"):
+        if not h.in_loop(cl.bb):
+            continue
+        for sb, t in h.switches():
+            if not (sb in h.reach_after(cl.bb) and cl.bb in h.reach_after(sb)):
+                continue
+            exits = [x for x in h.succ(sb) if cl.bb not in h.reach([x])]
+            if not exits:
+                continue
+            for q in h.slice(t["op"], at=sb).params():
+                if q - 1 < len(c.args) and p in b.slice_args(c, [q - 1]).locals:
+                    return True
+    return False
+
+
 def count_param(body):
     """The `&mut VisualLines` parameter of the emitter (rows of the previous frame)."""
     ps = [i for i in range(1, body.arg_count + 1)
@@ -64,12 +107,14 @@ def rule_draw_order(ctx, crate, rule="R-DRAW-ORDER"):
             nz = sw[1]["otherwise"]
             exempt |= b.edge_region((c.target, nz))
     # phase 1: erase/reposition — move_cursor_up whose argument slices to *bar_count; clear_line in a loop bounded by it
-    ups = [c for c in tl_calls(b, "move_cursor_up") if p in b.slice_args(c, [1]).locals]
-    clears = tl_calls(b, "clear_line")
+    ups = [c for c in tl_calls(b, "move_cursor_up") if p in b.slice_args(c, [1]).locals] + \
+        [c for c in helper_calls(crate, b, "move_cursor_up") if p in b.slice_args(c).locals]
+    clears = tl_calls(b, "clear_line") + helper_calls(crate, b, "clear_line")
     ctx.floor(rule, len(ups), 1, cfg, "move_cursor_up(previous row count) sites")
     ctx.floor(rule, len(clears), 1, cfg, "clear_line sites")
-    writes = tl_calls(b, "write_str", "write_line")
-    flushes = tl_calls(b, "flush")
+    writes = tl_calls(b, "write_str", "write_line") + [c for c in helper_calls(crate, b, "write_str", "write_line")
+                                                        if not (effect_summary(crate, c.path) & {"clear_line"})]
+    flushes = tl_calls(b, "flush") + helper_calls(crate, b, "flush")
     commits = [(i, j, s) for i, j, s in b.assigns() if s["lhs"]["l"] == p and "*" in s["lhs"]["p"]]
     ctx.floor(rule, len(commits), 1, cfg, "commit stores to the row count")
     if not (ups and clears and flushes and commits):
@@ -84,6 +129,11 @@ def rule_draw_order(ctx, crate, rule="R-DRAW-ORDER"):
               "a successful return is reachable without repositioning over the previous frame (return blocks %s)" % bad_rets, cfg)
     # (1b) clear_line: in a loop whose exit test depends on the previous row count
     for c in clears:
+        if c.callee.get("trait") != K.TERMLIKE:
+            ok_h = helper_clear_ok(crate, b, c, p)
+            ctx.check(ok_h, rule, "clear-loop", b.name, c.loc(), "the erase helper clears in a loop bounded by the previous row count passed to it",
+                      "the erase helper is not bounded by the previous row count", cfg)
+            continue
         inloop = b.in_loop(c.bb)
         bound_ok = False
         for sb, t in b.switches():
